@@ -9,14 +9,18 @@ RULE = ("scenario = platform (4 optional size/photon constraints, subset of {pro
         "(RemoteProcessor built directly with add/set_circuit, or local Processor converted with from_local_processor; "
         "random circuit of 2-6 modes with BS/PS/PERM and variable parameters, optional ports) x build operations "
         "(with_input, min_detected_photons_filter incl. 0 and None, noise, set/clear post-selection, add_herald on any "
-        "mode) x Sampler(max_shots_per_call incl. missing/0/negative) x session events (the same operations after "
+        "mode, set_value on a circuit parameter) x Sampler(max_shots_per_call incl. missing/0/negative) x session events (the same operations after "
         "conversion, add_iteration with valid and malformed entries, clear_iterations, job creation for the 3 methods, "
         "execute_async with positional/keyword/None/unknown arguments, server accepting or refusing). The real "
         "RPCHandler runs under `responses`; every captured request body is deserialised with perceval.deserialize and "
         "compared key by key with the model's payload and with the model's `describe`; circuits by matrix (1e-9) "
         "after the model's mode relabelling. A second stream enumerates the full product of optional pieces "
         "(heralds none/last/middle x input none/before/after conversion x filter None/0/2 x noise none/before/after x "
-        "post-selection x ports x direct/converted). A third stream runs Job._handle_params on arbitrary names, "
+        "post-selection x ports x direct/converted). A stream of repeated jobs creates and executes three jobs from "
+        "ONE processor with one change in between (a circuit parameter's value set without structural change, input, "
+        "noise, filter, post-selection, herald, iteration) while the server accepts, refuses, or registers the request "
+        "and then drops the connection / lets the read time out; the number of requests received and of jobs existing "
+        "server-side is compared after every event. Another stream runs Job._handle_params on arbitrary names, "
         "presets, positional and keyword arguments. Non-trivial: at least one request reached the server or a "
         "conversion/constraint/argument check refused the scenario; distinct by the full scenario tree.")
 TRUSTED = ["model: coq/Model/Payload.v, PayloadX.v (hand-written; tied by this correspondence stream)",
@@ -44,7 +48,8 @@ KW_NAMES = ["max_samples", "max_shots", "foo", "bar", "baz"]
 NOISE_KEYS = ["brightness", "indistinguishability", "g2", "transmittance"]
 PS_OPS = ["==", ">", "<"]
 EXN = {"AssertionError": 1, "RuntimeError": 2, "ValueError": 3, "NotImplementedError": 4, "TypeError": 5,
-       "IndexError": 6, "UnavailableModeException": 7, "HTTPError": 8}
+       "IndexError": 6, "UnavailableModeException": 7, "HTTPError": 8, "ConnectionError": 9, "ReadTimeout": 10,
+       "KeyError": 11}
 SITES = [(r"Input length not compatible", 1), (r"expected must be 0 or 1", 2), (r"Another port overlaps", 3),
          (r"min_detected_photons is not set", 10), (r"Circuit too big", 11), (r"Circuit too small", 12),
          (r"Circuit and input state size do not match", 13), (r"Too many photons", 14), (r"Not enough photons", 15),
@@ -67,6 +72,10 @@ def classify(e):
         return [1, code, 50]
     if name == "HTTPError":
         return [1, code, 60]
+    if name in ("ConnectionError", "ReadTimeout"):
+        return [1, code, 61]
+    if name == "KeyError":
+        return [1, code, 80]
     msg = str(e)
     for rx, site in SITES:
         if re.search(rx, msg):
@@ -91,17 +100,16 @@ _CIRC_CACHE = {}
 
 
 def circuit_for(cid, size, pnames):
-    """Deterministic circuit from its id; returns (factory, unitary as nested list)."""
+    """Deterministic circuit from its id; returns (factory(vals), unitary(vals)); vals = [[name, value/1000], ...]."""
     import numpy as np
     from perceval import Circuit, BS, PS, PERM, P
-    key = (cid, size, tuple(pnames))
 
-    def build():
-        if cid == WITNESS_CID:       # corpus: the smallest circuit on which the herald PERM breaks simplify()
+    def build(vals):
+        vd = {int(n): v / 1000 for n, v in vals}
+        if cid == WITNESS_CID:       # corpus: the smallest circuit on which the herald PERM broke simplify()
             return Circuit(size).add(1, BS()).add(0, BS())
         r = _pyrandom.Random(cid * 7919 + size)
         c = Circuit(size)
-        pending = list(pnames)
         for _ in range(r.randint(1, 6)):
             t = r.choice("bbppq")
             if t == "b":
@@ -113,14 +121,20 @@ def circuit_for(cid, size, pnames):
                 v = list(range(w))
                 r.shuffle(v)
                 c.add(r.randint(0, size - w), PERM(v))
-        for n in pending:
+        for n in pnames:
             par = P(f"phi{n}")
-            par.set_value(0.3 + 0.41 * n)
-            c.add(r.randint(0, size - 1), PS(par))
+            par.set_value(vd[n])
+            # between two beam splitters so that the value shows in the moduli of the matrix
+            pos = r.randint(0, size - 2)
+            c.add(pos, BS.H(0.9)).add(pos, PS(par)).add(pos, BS.H(1.3))
         return c
-    if key not in _CIRC_CACHE:
-        _CIRC_CACHE[key] = np.array(build().compute_unitary())
-    return build, _CIRC_CACHE[key]
+
+    def unitary(vals):
+        key = (cid, size, tuple(pnames), tuple((int(n), int(v)) for n, v in vals if int(n) in pnames))
+        if key not in _CIRC_CACHE:
+            _CIRC_CACHE[key] = np.array(build(vals).compute_unitary())
+        return _CIRC_CACHE[key]
+    return build, unitary
 
 
 def relabelled_unitary(U, lab):
@@ -140,7 +154,9 @@ class Cloud:
     def __init__(self, rsps, platform):
         self.sent = []
         self.gets = 0
-        self.accept = True
+        self.answer = 1          # 0 refuse (400), 1 accept, 2 lost (connection), 3 lost (read timeout), 4 first answer lost
+        self.lost_once = False
+        self.registered = 0      # jobs that exist server-side
         self.ids = 0
         maxm, minm, maxn, minn, pr, sc, sa = platform
         cons = {}
@@ -159,9 +175,16 @@ class Cloud:
             return (200, {"content-type": "application/json"}, json.dumps(details))
 
         def post_cb(req):
+            import requests
             self.sent.append(json.loads(req.body))
-            if not self.accept:
+            if self.answer == 0:
                 return (400, {"content-type": "application/json"}, json.dumps({"error": "refused"}))
+            self.registered += 1
+            if self.answer in (2, 3) or (self.answer == 4 and not self.lost_once):
+                self.lost_once = True
+                if self.answer == 3:
+                    raise requests.exceptions.ReadTimeout("read timed out (request registered, answer lost)")
+                raise requests.exceptions.ConnectionError("connection dropped (request registered, answer lost)")
             self.ids += 1
             return (200, {"content-type": "application/json"}, json.dumps({"job_id": f"job-{self.ids}"}))
         import responses
@@ -182,8 +205,10 @@ def apply_op_real(proc, op):
         proc.set_postselection(mk_ps(op[1]))
     elif k == 4:
         proc.clear_postselection()
-    else:
+    elif k == 5:
         proc.add_herald(op[1], op[2])
+    else:
+        proc.get_circuit_parameters()[f"phi{op[1]}"].set_value(op[2] / 1000)
 
 
 def iteration_kwargs(it):
@@ -234,13 +259,15 @@ def run_real(sc, mobs):
     platform, base, ops, shots, events = sc
     kind, cid, size, pnames, via_set, ports = base[:6]
     piecewise = len(base) > 6 and base[6]
-    build, U0 = circuit_for(cid, size, pnames)
+    vals0 = base[7]
+    build0, U0 = circuit_for(cid, size, pnames)
+    build = lambda: build0(vals0)
 
     def add_pieces(proc):
         for r, c in build():
             proc.add(r[0], c)
     out = {"ops": [], "conv": None, "built": None, "init": None, "events": [], "posts": [], "sent": [], "gets": 0,
-           "final": None, "U0": U0, "posts_before_events": 0}
+           "final": None, "U0": U0, "posts_before_events": 0, "registered": 0}
     with responses.RequestsMock(assert_all_requests_are_fired=False) as rsps:
         cloud = Cloud(rsps, platform)
         handler = RPCHandler(PLATFORM, URL, "token")
@@ -315,8 +342,9 @@ def run_real(sc, mobs):
                 elif t == 3:
                     jobs.append(getattr(sampler, METHODS[ev[1]]))
                 else:
-                    _, k, args, kw, accept = ev
-                    cloud.accept = bool(accept)
+                    _, k, args, kw, answer = ev
+                    cloud.answer = int(answer)
+                    cloud.lost_once = False
                     before = len(cloud.sent)
                     j = jobs[k]
                     j.execute_async(*[(a[0] if a else None) for a in args],
@@ -331,6 +359,8 @@ def run_real(sc, mobs):
                 out["events"].append(classify(e))
             out["posts"].append(len(cloud.sent))
         out["final"] = proc_state(rp)
+        out["final"]["U"] = np.array(rp.experiment.unitary_circuit().compute_unitary())
+        out["registered"] = cloud.registered
         out["gets"] = cloud.gets
         out["sent"] = cloud.sent
     return out
@@ -359,7 +389,7 @@ def compare_proc(mp, real, U0, where):
     if opt(flt) != real["filter"]:
         errs.append((f"{where}-filter", "min_detected_photons differs", opt(flt), real["filter"]))
     if "U" in real:
-        V = relabelled_unitary(U0, circ[2])
+        V = relabelled_unitary(U0(circ[3]), circ[2])
         if real["U"].shape != V.shape or not np.allclose(real["U"], V, atol=1e-9, rtol=0):
             errs.append((f"{where}-matrix", "circuit matrix differs from the relabelled matrix of the built circuit",
                          circ[2], "max abs diff %g" % (np.abs(real["U"] - V).max() if real["U"].shape == V.shape else -1)))
@@ -410,10 +440,10 @@ def compare_request(mreq, raw, U0):
         if tag == 0:
             ok, exp = got == METHODS[val], METHODS[val]
         elif tag == 1:
-            exp = "matrix id %d relabelled %s" % (val[0], val[2])
+            exp = "matrix id %d with parameter values %s relabelled %s" % (val[0], val[3], val[2])
             ok = isinstance(got, ACircuit) and got.m == val[1]
             if ok:
-                V = relabelled_unitary(U0, val[2])
+                V = relabelled_unitary(U0(val[3]), val[2])
                 ok = bool(np.allclose(np.array(got.compute_unitary()), V, atol=1e-9, rtol=0))
         elif tag == 2:
             exp = list(val)
@@ -547,14 +577,18 @@ def check_scenario(ctx, sc, mout, real):
             errs.append((f"event-{['op', 'add_iteration', 'clear', 'create_job', 'execute'][sc[4][i][0]]}",
                          f"event {i} observed differently", mo, ro))
             return errs
-        if mo == [2] or (mo[0] == 1 and mo[1] == 8):
-            posts += 1
+        if mo == [2] or (mo[0] == 1 and mo[1] in (8, 9, 10)):
+            posts += 1           # accepted, refused (HTTP 400), or registered and the answer lost: exactly one request
         if real["posts"][i] != posts:
             sig = "sent-before-execute" if sc[4][i][0] != 4 else "execute-request-count"
             errs.append((sig, f"number of job requests after event {i}", posts, real["posts"][i]))
             return errs
     if real["gets"] != 1:
         errs.append(("extra-traffic", "platform details fetched more than once", 1, real["gets"]))
+    if real["registered"] != m_created:
+        errs.append(("remote-jobs-created", "number of jobs existing server-side after the session", m_created,
+                     real["registered"]))
+        return errs
     if len(real["sent"]) != len(m_net):
         errs.append(("execute-request-count", "number of requests received", len(m_net), len(real["sent"])))
         return errs
@@ -600,10 +634,16 @@ def gen_state(rng, m, maxn=3):
     return st
 
 
-def gen_op(rng, size, nher, malformed, allow_herald=True, free_modes=None):
+def gen_op(rng, size, nher, malformed, allow_herald=True, free_modes=None, pnames=()):
     m = max(size - nher, 0)
-    t = rng.choice(["in", "in", "filter", "filter", "noise", "ps", "clear", "herald", "herald"])
+    t = rng.choice(["in", "in", "filter", "filter", "noise", "ps", "clear", "herald", "herald", "param", "param"])
     if t == "herald" and not allow_herald:
+        t = "filter"
+    if t == "param":
+        if pnames and not (malformed and rng.chance(1, 4)):
+            return [6, rng.choice(list(pnames)), rng.rint(100, 6000)]
+        if malformed:
+            return [6, rng.below(3), rng.rint(100, 6000)]
         t = "filter"
     if t == "in":
         length = m if not (malformed and rng.chance(1, 3)) else rng.choice([size, m + 1, max(m - 1, 1)])
@@ -634,12 +674,15 @@ def gen_scenario(rng, malformed):
                 rng.chance(2, 3), rng.chance(1, 2), rng.chance(1, 2)]
     if not any(platform[4:]) and not rng.chance(1, 6):
         platform[4 + rng.below(3)] = True
-    base = [kind, rng.below(100000), size, pnames, rng.chance(1, 3) and kind == 0, ports, rng.chance(1, 2)]
+    if not pnames and rng.chance(1, 2):
+        pnames = [rng.below(3)]
+    base = [kind, rng.below(100000), size, pnames, rng.chance(1, 3) and kind == 0, ports, rng.chance(1, 2),
+            [[n, 300 + 410 * n] for n in pnames]]
     ops = []
     her = set()
     for _ in range(rng.rint(0, 6)):
         free = [m for m in range(size) if m not in her and m not in ports]
-        op = gen_op(rng, size, len(her), malformed, allow_herald=len(her) < size - 1, free_modes=free)
+        op = gen_op(rng, size, len(her), malformed, allow_herald=len(her) < size - 1, free_modes=free, pnames=pnames)
         if op[0] == 5 and op[2] <= 1 and op[1] not in her and op[1] not in ports:
             her.add(op[1])
         ops.append(op)
@@ -661,7 +704,8 @@ def gen_scenario(rng, malformed):
             has_input = True
         elif t == "op":
             free = [x for x in range(size) if x not in her and x not in ports]
-            op = gen_op(rng, size, len(her), malformed, allow_herald=(len(her) < size - 1 and kind == 0), free_modes=free)
+            op = gen_op(rng, size, len(her), malformed, allow_herald=(len(her) < size - 1 and kind == 0), free_modes=free,
+                        pnames=pnames)
             if op[0] == 5 and op[2] <= 1 and op[1] not in her and op[1] not in ports:
                 her.add(op[1])
             events.append([0, op])
@@ -711,7 +755,12 @@ def gen_scenario(rng, malformed):
             elif shape == 8 and malformed:
                 args = [[5]] if rng.chance(1, 2) else [[]]
                 kw = [[0, [9] if rng.chance(2, 3) else []]]
-            events.append([4, k, args, kw, not (malformed and rng.chance(1, 5))])
+            answer = 1
+            if rng.chance(1, 5):
+                answer = rng.choice([2, 3, 4])          # request registered, answer lost
+            elif malformed and rng.chance(1, 4):
+                answer = 0                              # HTTP 400
+            events.append([4, k, args, kw, answer])
     return [platform, base, ops, shots, events]
 
 
@@ -745,12 +794,63 @@ def product_scenarios():
                                 elif inp == "after":
                                     evs.append([0, state])
                                 meth = i % 3
-                                evs += [[3, meth], [4, 0, [[200 + i]], [], True]]
+                                evs += [[3, meth], [4, 0, [[200 + i]], [], 1]]
                                 platform = [[6], [2], [4], [1], i % 2 == 0, i % 4 >= 1, i % 5 == 0]
-                                base = [kind, 4242 + (i % 7), size, [0] if i % 3 == 0 else [], False,
-                                        [2] if ports else [], i % 2 == 1]
+                                pn = [0] if i % 3 == 0 else []
+                                base = [kind, 4242 + (i % 7), size, pn, False,
+                                        [2] if ports else [], i % 2 == 1, [[n, 300 + 410 * n] for n in pn]]
                                 out.append([platform, base, ops, [100], evs])
                                 i += 1
+    return out
+
+
+def repeated_job_scenarios(rng, n):
+    """One processor, several jobs: job, execute, ONE change of the processor / sampler, job, execute (x2).
+    The change kinds cover everything a request depends on: a circuit parameter's value (no structural change),
+    input, noise, filter, post-selection, a herald (direct processors), an iteration; the executions draw every server
+    answer (accepted, refused, request registered then connection dropped / read timed out)."""
+    out = []
+    for i in range(n):
+        size = rng.rint(2, 5)
+        kind = i % 2
+        pnames = sorted(set([rng.below(3)] + ([rng.below(3)] if rng.chance(1, 2) else [])))
+        platform = [[size + 2], [1], [6], [], True, True, True]
+        if rng.chance(1, 3):
+            platform[4 + rng.below(3)] = False
+        base = [kind, rng.below(100000), size, pnames, False, [], rng.chance(1, 2), [[n_, 300 + 410 * n_] for n_ in pnames]]
+        ops = [[1, [rng.rint(0, 1)]]]
+        her = []
+        if rng.chance(1, 3) and size > 2:
+            her = [rng.below(size)]
+            ops.insert(0, [5, her[0], rng.below(2)])
+        m = size - len(her)
+        ops.append([0, gen_state(rng, m, 2)])
+        evs = []
+        for rnd in range(3):
+            evs.append([3, rng.below(3)])
+            evs.append([4, rnd, [[rng.choice([7, 500, 20000])]], [], rng.choice([1, 1, 1, 2, 3, 4, 0])])
+            change = rng.choice(["param", "param", "param", "input", "noise", "filter", "ps", "herald", "iter"])
+            if change == "param":
+                # with heralds the conversion froze the parameters (KeyError on both sides): still a valid probe
+                evs.append([0, [6, rng.choice(pnames), rng.rint(100, 6000)]])
+            elif change == "input":
+                evs.append([0, [0, gen_state(rng, m, 2)]])
+            elif change == "noise":
+                evs.append([0, [2, [gen_noise(rng)]]])
+            elif change == "filter":
+                evs.append([0, [1, [rng.rint(0, 2)]]])
+            elif change == "ps":
+                evs.append([0, [3, gen_ps(rng, size)]])
+            elif change == "herald" and kind == 0 and m > 1:
+                free = [x for x in range(size) if x not in her]
+                hm = rng.choice(free)
+                her.append(hm)
+                m -= 1
+                evs.append([0, [5, hm, rng.below(2)]])
+                evs.append([0, [0, gen_state(rng, m, 2)]])
+            else:
+                evs.append([1, [[4, rng.choice([5, 50])]]])
+        out.append([platform, base, ops, [rng.choice([100, 1000])], evs])
     return out
 
 
@@ -787,7 +887,8 @@ def describe_case(sc):
                          "commands": [n for n, b in zip(METHODS, platform[4:]) if b]},
             "base": {"kind": "RemoteProcessor" if base[0] == 0 else "Processor -> from_local_processor",
                      "circuit_id": base[1], "modes": base[2], "parameters": base[3], "set_circuit": bool(base[4]),
-                     "ports": base[5], "components_added_one_by_one": bool(len(base) > 6 and base[6])},
+                     "ports": base[5], "components_added_one_by_one": bool(len(base) > 6 and base[6]),
+                     "parameter_values_x1000": base[7]},
             "ops": ops, "max_shots_per_call": opt(shots), "events": events, "tree": sc}
 
 
@@ -848,10 +949,10 @@ def run(ctx):
     # stream 1: the full product of optional pieces (+ corpus witnesses of the recorded findings)
     prod = product_scenarios()
     permissive = [[], [], [], [], True, True, True]
-    prod.append([permissive, [1, WITNESS_CID, 4, [], False, [], True], [[5, 2, 0], [1, [1]]], [100],
-                 [[0, [0, [1, 0, 0]]], [3, 0], [4, 0, [], [], True]]])
-    prod.append([permissive, [1, 4242, 4, [], False, [], False], [[5, 3, 1], [1, [1]], [0, [1, 0, 0]]], [100],
-                 [[3, 0], [4, 0, [], [], True]]])
+    prod.append([permissive, [1, WITNESS_CID, 4, [], False, [], True, []], [[5, 2, 0], [1, [1]]], [100],
+                 [[0, [0, [1, 0, 0]]], [3, 0], [4, 0, [], [], 1]]])
+    prod.append([permissive, [1, 4242, 4, [], False, [], False, []], [[5, 3, 1], [1, [1]], [0, [1, 0, 0]]], [100],
+                 [[3, 0], [4, 0, [], [], 1]]])
     process(prod, "product")
     ctx.streams["optional-pieces product (every combination)"] = len(prod)
 
@@ -862,6 +963,11 @@ def run(ctx):
     n_bad = ctx.n(300, 3000)
     process([gen_scenario(rng, True) for _ in range(n_bad)], "malformed")
     ctx.streams["malformed scenarios"] = n_bad
+
+    # stream: several jobs from one processor, one change in between, every kind of server answer
+    n_rep = ctx.n(300, 3000)
+    process(repeated_job_scenarios(rng, n_rep), "repeated")
+    ctx.streams["repeated jobs on one processor (change in between, lossy server)"] = n_rep
 
     # stream 4: Job._handle_params on arbitrary shapes
     n_hp = ctx.n(600, 6000)
